@@ -11,6 +11,8 @@ pub mod fs;
 mod huffman;
 pub mod io;
 pub mod record;
+#[cfg(noodles_verif)]
+pub mod verif;
 
 use md5::{Digest, Md5};
 
